@@ -214,7 +214,7 @@ def val_coq(v):
 
 
 EV = {"ok": "GOk", "err:malformed": "GErr ErrMalformed", "err:colcount": "GErr ErrColCount", "err:type": "GErr ErrType",
-      "err:intrange": "GErr ErrIntRange", "err:toolarge": "GErr ErrTooLarge"}
+      "err:intrange": "GErr ErrIntRange", "err:toolarge": "GErr ErrTooLarge", "err:columns": "GErr ErrColumns"}
 
 
 def import_coq(im, o):
